@@ -491,6 +491,38 @@ def run(ctx):
             break
     ctx.sites(R7, n_other, 1, "rows of increment spending the `other` budget")
 
+    # ------------------------------------------------------------------ R13 what the driver hands to the policy for a post-send failure
+    R13 = ctx.rule("C04-R13", "translation feeds the method gate: every low-level failure that can happen after request bytes were written (http.client.HTTPException, OSError, socket.timeout) reaches increment(error=...) from urlopen's handler as an error that _is_read_error classifies as a read error - or as a ProxyError on the not-yet-connected-proxy arm (whose guard is C04-R8)", "E4 on urlopen's handlers (shared with C01-R8) x E5 rows of _is_read_error")
+    from .c01_more import urlopen_translation
+    ufi, table = urlopen_translation(ctx)
+    POST_SEND = ("http.client.HTTPException", "builtins.OSError", "socket.timeout")
+    n13 = 0
+    for root, escaped, errs in table:
+        if root not in POST_SEND:
+            continue
+        short = root.rsplit(".", 1)[-1]
+        classes = {}
+        for q, s_ in errs:
+            classes.setdefault(q, s_)
+        non_proxy = 0
+        for q, s_ in sorted(classes.items(), key=lambda x: str(x[0])):
+            n13 += 1
+            if q is not None and m.issub(q, "urllib3.exceptions.ProxyError"):
+                ctx.ob(R13, ufi.qual, f"root {short} -> ProxyError on the proxy arm", True)
+                continue
+            if q is not None and m.issub(q, "urllib3.exceptions.SSLError"):
+                # the OSError root includes ssl.SSLError, which the handler turns into SSLError: TLS failures are not in the
+                # property's read-error alphabet (timeout, reset, EOF, garbage) and follow upstream's `other` category
+                continue
+            non_proxy += 1
+            v = verdicts_for(ire, rrows, q) if q else set()
+            ok = v == {True}
+            ctx.ob(R13, ufi.qual, f"root {short} -> increment(error={str(q).rsplit('.', 1)[-1]}) is gated as a read error", ok,
+                   "" if ok else f"_is_read_error({str(q).rsplit('.', 1)[-1]}) gives {sorted(map(str, v))}: this failure after the request was sent spends the ungated `other` budget, so a non-idempotent request is re-sent",
+                   witness=s_.witness(), node=ufi.node)
+        ctx.ob(R13, ufi.qual, f"root {short} reaches the policy on the direct (non-proxy) arm", non_proxy >= 1, "" if non_proxy else "only the proxy arm hands this root to the policy")
+    ctx.sites(R13, n13, 3, "error classes handed to increment for post-send roots")
+
     rule_r8(ctx)
 
     # ------------------------------------------------------------------ R11, R12
